@@ -244,7 +244,8 @@ static int op_foreach(World &w, Net &n, int pgno, int subno, int dir, int stop_a
 	w.r->say("  (model: %zu cached versions, %d zombies in this network)\n", all.size(), n.zombies);
 	c10_visit vis[16]; int ret = -1;
 	int nv = c10_foreach(w.ca, n.cn, pgno, subno, dir, vis, 16, stop_after, &ret);
-	if (all.empty()) { if (nv != 0 || ret != 0) return w.r->fail("C10:foreach-empty", "foreach on an empty network visited %d pages", nv); return 0; }
+	// an empty network: nothing visited; "no pages" (0) or, when only unreachable zombie pages are left, "all done" (-1) after the walk wrapped twice
+	if (all.empty()) { if (nv != 0 || (ret != 0 && ret != -1)) return w.r->fail("C10:foreach-empty", "foreach on an empty network visited %d pages (return %d)", nv, ret); return 0; }
 	std::sort(all.begin(), all.end());
 	// start: the page itself if cached (ANY = most recent version), else the next one in direction
 	std::vector<std::pair<int, int>> want;
@@ -258,8 +259,20 @@ static int op_foreach(World &w, Net &n, int pgno, int subno, int dir, int stop_a
 		if (dir > 0) { pos = std::upper_bound(all.begin(), all.end(), key) - all.begin(); if (pos == all.size()) pos = 0; }
 		else { size_t lb = std::lower_bound(all.begin(), all.end(), key) - all.begin(); pos = lb == 0 ? all.size() - 1 : lb - 1; }
 	}
-	for (int k = 0; k < stop_after; ++k) { want.push_back(all[pos]); pos = dir > 0 ? (pos + 1) % all.size() : (pos + all.size() - 1) % all.size(); }
-	if (nv != stop_after || ret != 1) return w.r->fail("C10:foreach-count", "foreach visited %d pages (return %d), expected %d", nv, ret, stop_after);
+	// the walk ends by itself ("all done", -1) when it would wrap around a second time: the pages from the start position to the end of the
+	// number range, then once through all pages
+	int avail;
+	{
+		std::pair<int, int> skey(pgno, sv ? start_sub : (subno == ANY_SUBNO ? 0 : subno));
+		size_t n1 = 0;
+		for (auto &p : all) if (dir > 0 ? !(p < skey) : !(skey < p)) ++n1;	// at or beyond the start position in walking direction
+		if (!sv) { n1 = 0; for (auto &p : all) if (dir > 0 ? (skey < p) : (p < skey)) ++n1; }
+		avail = (int)(n1 + all.size());
+	}
+	int expect_n = std::min(stop_after, avail);
+	for (int k = 0; k < expect_n; ++k) { want.push_back(all[pos]); pos = dir > 0 ? (pos + 1) % all.size() : (pos + all.size() - 1) % all.size(); }
+	if (nv != expect_n || ret != (stop_after <= avail ? 1 : -1)) return w.r->fail("C10:foreach-count", "foreach visited %d pages (return %d), expected %d (return %d)", nv, ret, expect_n, stop_after <= avail ? 1 : -1);
+	stop_after = expect_n;
 	for (int k = 0; k < stop_after && k < 16; ++k)
 		if (vis[k].pgno != want[k].first || vis[k].subno != want[k].second)
 			return w.r->fail("C10:foreach-order", "foreach visit #%d is %x.%x, expected %x.%x", k, vis[k].pgno, vis[k].subno, want[k].first, want[k].second);
